@@ -103,6 +103,28 @@ def api_run(name, tier, seed, cfgs):
     if n2 == 0:
         raise ToolError("LexerAPI.tla: no history with a second buffer was enumerated")
     log("[api] second buffer: TLC %d states, %d distinct, %d states kept, %.1fs" % (res2["states"], res2["distinct"], n2, res2["wall"]))
+    # third exploration: random simulation of LONGER histories over LONGER inputs (TLC -simulate, seeded): every state on the
+    # way is printed with its history and all its enabled operations, like the exhaustively enumerated ones
+    ntr = 30 if tier == "quick" else 400
+    res3 = run_tlc("LexerAPI.tla", "LexerAPI.cfg", {"DEFS": api_defs, "MAXLEN": "6", "MAXOPS": "12", "FRESH": "1"}, workers=1,
+                   metaname="api3", timeout=3000, xss="512m", extra=["-simulate", "num=%d" % ntr, "-depth", "40", "-seed", str(seed + 1)])
+    if not res3["ok"]:
+        raise ToolError("LexerAPI.tla (simulation): SpanInv violated at specification level:\n" + res3["out"][-3000:])
+    seen3 = set()
+    n3 = 0
+    for r in tlc_records(res3):
+        if r[0] != "API":
+            continue
+        rec = r[2]
+        k3 = (rec["d"], tuple(rec["chars"]), rec["partial"], tuple(rec["hist"]))
+        if len(rec["hist"]) < maxops or k3 in seen3:
+            continue            # short histories are part of the exhaustive explorations
+        seen3.add(k3)
+        recs.append(rec)
+        n3 += 1
+    if n3 == 0:
+        raise ToolError("LexerAPI.tla: the simulation produced no history beyond the exhaustive bound")
+    log("[api] simulation: %d traces, %d states generated, %d deep states kept (inputs up to 6 characters, up to 12 operations), %.1fs" % (ntr, res3["states"], n3, res3["wall"]))
     res = dict(res, states=res["states"] + res2["states"], distinct=res["distinct"] + res2["distinct"], wall=res["wall"] + res2["wall"])
     bins = build_subjects(metas, cfgs, name, pairs=pairs)
     pidx_of = {ia: p for (p, ia, ib, s) in pairs}
@@ -165,7 +187,7 @@ def api_run(name, tier, seed, cfgs):
     samples = [{"pair": meta_by_idx[i["d"]]["id"], "input_hex": i["data"], "partial": i["partial"], "history": i["hist"], "operations_with_expected_result_and_observation": i["ops"][:4]}
                for (l, i) in requests[:: max(1, len(requests) // 5)][:5]]
     out = {"tlc": {k: res[k] for k in ("states", "distinct", "depth", "wall")}, "histories": n_hist, "runs": n_hist * len(cfgs),
-           "states_with_ops": len(recs), "cfgs": cfgs, "maxlen": maxlen, "maxops": maxops, "findings": findings[:3000], "n_findings": len(findings),
+           "states_with_ops": len(recs), "cfgs": cfgs, "maxlen": maxlen, "maxops": maxops, "simulated_deep_states": n3, "simulated_traces": ntr, "findings": findings[:3000], "n_findings": len(findings),
            "samples": samples, "wall": time.time() - t0, "pairs": [p[0] for p in pairs]}
     with open(cache, "w") as f:
         json.dump(out, f)
